@@ -121,6 +121,51 @@ theorem readAll_complete (src : Nat → Option Nat) (chunk : Nat → Nat) (fuel 
         rw [show got.length + (n - got.length) = n by omega, hid] at this
         simp [this]
 
+theorem pull_length_full (src : Nat → Option Nat) : ∀ (k pos : Nat),
+    (∀ i, i < k → (src (pos + i)).isSome = true) → (ReadAll.pull src pos k).length = k := by
+  intro k
+  induction k with
+  | zero => intro pos _; simp [ReadAll.pull]
+  | succ k ih =>
+    intro pos h
+    unfold ReadAll.pull
+    have h0 := h 0 (by omega)
+    simp only [Nat.add_zero] at h0
+    cases hs : src pos with
+    | none => rw [hs] at h0; simp at h0
+    | some b =>
+      simp only [List.length_cons]
+      rw [ih (pos + 1) (fun i hi => by have := h (i + 1) (by omega); rwa [show pos + (i + 1) = pos + 1 + i by omega] at this)]
+
+/-- a source that still has `rem` bytes is read up to the allowance: exactly `rem` bytes come back -/
+theorem readAll_full (src : Nat → Option Nat) (chunk : Nat → Nat) (fuel pos rem : Nat) (h : rem < fuel)
+    (hsome : ∀ i, i < rem → (src (pos + i)).isSome = true) :
+    ∃ out, ReadAll.readAll src chunk fuel pos rem = some out ∧ out.length = rem := by
+  induction fuel generalizing pos rem with
+  | zero => omega
+  | succ fuel ih =>
+    unfold ReadAll.readAll
+    by_cases hr : rem = 0
+    · exact ⟨[], by simp [hr], by simp [hr]⟩
+    · simp only [hr, if_false]
+      have hw : min (chunk pos + 1) rem ≤ rem := Nat.min_le_right _ _
+      have hlen : (ReadAll.pull src pos (min (chunk pos + 1) rem)).length = min (chunk pos + 1) rem :=
+        pull_length_full src _ pos (fun i hi => hsome i (by omega))
+      have hpos : 0 < min (chunk pos + 1) rem := by
+        rw [Nat.lt_min]; constructor <;> omega
+      have hne : (ReadAll.pull src pos (min (chunk pos + 1) rem)).isEmpty = false := by
+        cases hg : ReadAll.pull src pos (min (chunk pos + 1) rem) with
+        | nil => rw [hg] at hlen; simp at hlen; omega
+        | cons _ _ => rfl
+      simp only [hne]
+      obtain ⟨o, ho, hol⟩ := ih (pos + (ReadAll.pull src pos (min (chunk pos + 1) rem)).length)
+        (rem - (ReadAll.pull src pos (min (chunk pos + 1) rem)).length) (by omega)
+        (fun i hi => by
+          have := hsome ((ReadAll.pull src pos (min (chunk pos + 1) rem)).length + i) (by omega)
+          rwa [← Nat.add_assoc] at this)
+      refine ⟨ReadAll.pull src pos (min (chunk pos + 1) rem) ++ o, by simp [ho], ?_⟩
+      rw [List.length_append, hol]; omega
+
 -- SSH1 ---------------------------------------------------------------------------------------------
 theorem le_sum_of_mem' : ∀ (l : List Nat) (a : Nat), a ∈ l → a ≤ l.sum := by
   intro l
